@@ -404,7 +404,20 @@ def _same_mdp(case, label, m1, m2, ValueIteration, sp):
                     raise
                 q1 = None
             if q1 is not None:
-                q2 = case.call(f"LAOStar.plan_on({label})", LAOStar(heuristic=lambda s: 0.0, seed=0, max_lao_star_iterations=60).plan_on, m2)
+                try:
+                    q2 = case.call(f"LAOStar.plan_on({label})", LAOStar(heuristic=lambda s: 0.0, seed=0, max_lao_star_iterations=60).plan_on, m2,
+                                   expect=(AssertionError,))
+                except AssertionError as e_:
+                    import traceback as _tb
+                    frames_ = [fr.name for fr in _tb.extract_tb(e_.__traceback__)]
+                    if frames_ and frames_[-1] == "_policy_iteration":
+                        # LAO*'s own inner policy iteration gave up on a tie (C03's recorded finding; the order in which the rebuilt
+                        # model lists successors differs from the original's): not a statement about the rebuilt model
+                        case.count("function_walking_planner_gave_up_on_a_tie")
+                        q2 = case.FAIL
+                    else:
+                        case.fail(f"exception:LAOStar.plan_on({label})", f"AssertionError at {frames_[-3:]!r}")
+                        q2 = case.FAIL
                 case.count("function_walking_planner_comparisons")
                 if q2 is not case.FAIL:
                     same_ = (not (q1.converged and q2.converged)) or abs(q1.initial_value - q2.initial_value) <= 1e-6 * max(1.0, abs(q1.initial_value))
